@@ -105,7 +105,14 @@ class Session(BaseSession):
         read_callback = functools.partial(self.event_dispatcher.notify, self.Event.response_data)
         stream.data_event_dispatcher.add_read_listener(read_callback)
 
-        self._response = response = yield from stream.read_response()
+        while True:
+            self._response = response = yield from stream.read_response()
+
+            # Interim responses (RFC 7231 6.2) precede the final response.
+            if not (100 <= response.status_code < 200
+                    and response.status_code != 101):
+                break
+
         response.request = request
 
         self.event_dispatcher.notify(self.Event.begin_response, response)
